@@ -365,8 +365,8 @@ def check(pid, tier, batch_seed):
     if viols and not errs:
         seen_inv = {}
         for r in viols:
-            inv = vcls(r["viol"][0])
-            seen_inv.setdefault(inv, []).append(r)
+            for v in r["viol"]:
+                seen_inv.setdefault(vcls(v), []).append(r)
         for inv in sorted(seen_inv):
             say("violation class %s: %d runs" % (inv, len(seen_inv[inv])))
         max_report = int(os.environ.get("VERIF_MAX_REPORT", "4"))
